@@ -76,6 +76,13 @@ def structural(case, data, conforms, rg, text):
         for p in (SH.value, SH.resultPath):
             if len(list(rg.objects(r, p))) > 1:
                 bad.append("a result has more than one %s" % p.rsplit("#")[-1])
+        for pth in rg.objects(r, SH.resultPath):
+            if pth not in sg_terms and pth not in data_terms:      # sh:closed reports the offending predicate of the data graph
+                bad.append("sh:resultPath %s occurs in neither validated graph" % pth.n3())
+            if isinstance(pth, BNode):
+                for p_, o_ in case["sg"].predicate_objects(pth):
+                    if not isinstance(o_, BNode) and (pth, p_, o_) not in rg:
+                        bad.append("blank-node path without its description in the report: missing %s %s" % (p_.n3(), o_.n3()))
         for f in list(rg.objects(r, SH.focusNode)) + list(rg.objects(r, SH.value)):
             if f not in data_terms and f not in sg_terms:
                 bad.append("focus/value term %s occurs in neither validated graph" % f.n3())
@@ -134,6 +141,15 @@ def main(tier, seed, replay=None):
                 gi += 1
                 for o in ({}, {"sparql_mode": True}, {"sparql_mode": True, "abort_on_first": True}):
                     cases.append({"shapes": [], "sg": sgx, "data": dgx, "opts": dict(o), "group": gi, "structural_only": True, "nodes": [], "lits": []})
+    # blank nodes that head RDF lists, as value nodes, focus nodes and sequence paths: they keep their identity in the report
+    LIST_PFX = "@prefix sh: <http://www.w3.org/ns/shacl#> . @prefix ex: <http://ex.org/> . @prefix rdf: <http://www.w3.org/1999/02/22-rdf-syntax-ns#> .\n"
+    list_data = rdflib.Graph().parse(data=LIST_PFX + "ex:a a ex:T ; ex:p ( 1 2 ) , [ ex:name \"n\" ] , ( ex:x ) ; ex:q ( \"s\" ) . ex:b a ex:T ; ex:p ex:c . ex:c ex:q ( 3 ) .", format="turtle")
+    for body in ("sh:property [ sh:path ex:p ; sh:nodeKind sh:IRI ]", "sh:property [ sh:path ( ex:p ex:q ) ; sh:maxCount 0 ]", "sh:property [ sh:path ( ex:p [ sh:zeroOrMorePath ex:q ] ) ; sh:nodeKind sh:Literal ]",
+                 "sh:property [ sh:path [ sh:alternativePath ( ex:p ex:q ) ] ; sh:class ex:Nope ]", "sh:property [ sh:path ex:p ; sh:node [ sh:property [ sh:path rdf:first ; sh:maxCount 0 ] ] ]"):
+        sgx = rdflib.Graph().parse(data=LIST_PFX + "ex:LS a sh:NodeShape ; sh:targetClass ex:T ; " + body + " .\nex:LO a sh:NodeShape ; sh:targetObjectsOf ex:p ; sh:nodeKind sh:IRI .", format="turtle")
+        gi += 1
+        for o in ({}, {"abort_on_first": True}, {"allow_warnings": True}):
+            cases.append({"shapes": [], "sg": sgx, "data": list_data, "opts": dict(o), "group": gi, "structural_only": True, "nodes": [], "lits": []})
     rep = F.Report(PROP, tier, seed)
     ob = F.coq_build(["Props/C06.v"], extra=EC.EXTRA_VO)
     import pyshacl
@@ -228,7 +244,7 @@ def main(tier, seed, replay=None):
     cov = F.proof_coverage(ob)
     cov.update({
         "evaluations": len(cases), "distinct_nontrivial": stats["nonconforming"],
-        "rule": "case = shapes/data from the evaluator-level generators (nested shapes, templates for qualified siblings, severity mixes, SPARQL components) x 10 option settings (abort_on_first, allow_infos, allow_warnings, advanced, sparql_mode, inference rdfs/owlrl, Dataset input); plus shapes over every core component (C01's generator) in default mode and sparql_mode, and a grid of the four property-pair components over every subset relation of the two value sets; on every real report: one report node, sh:conforms = verdict = text, text count = #sh:result, verdict <-> all top-level severities waived, every (nested) result well-formed, terms denote terms of the validated graphs, blank-node terms come with their description; non-trivial = non-conforming; for the modes the model covers the per-predicate triple counts and the multiset of result rows (focus, value, source shape, component, severity at every sh:detail depth) are compared with the model's report_graph",
+        "rule": "case = shapes/data from the evaluator-level generators (nested shapes, templates for qualified siblings, severity mixes, SPARQL components) x 10 option settings (abort_on_first, allow_infos, allow_warnings, advanced, sparql_mode, inference rdfs/owlrl, Dataset input); plus shapes over every core component (C01's generator) in default mode and sparql_mode, RDF-list heads as value nodes, focus nodes and sequence paths, and a grid of the four property-pair components over every subset relation of the two value sets; on every real report: one report node, sh:conforms = verdict = text, text count = #sh:result, verdict <-> all top-level severities waived, every (nested) result well-formed, terms denote terms of the validated graphs, blank-node terms come with their description; non-trivial = non-conforming; for the modes the model covers the per-predicate triple counts and the multiset of result rows (focus, value, source shape, component, severity at every sh:detail depth) are compared with the model's report_graph",
         "distribution": dict(stats, histogram_cases=len(bodies), model_disagreements=len(failed), structural_complaints=len(complaints)),
         "samples": [{"options": cases[i]["opts"], "shapes_ttl": cases[i]["sg"].serialize(format="turtle")[:1500]} for i in (0, len(cases) // 2)],
     })
